@@ -750,6 +750,14 @@ item_gen(struct item *it, const struct suite *cs, const struct suite *hs, struct
         rng_bytes(r, it->k.akey, sizeof it->k.akey);
         rng_bytes(r, it->iv, sizeof it->iv);
         rng_bytes(r, it->aiv, sizeof it->aiv);
+        if (g->ckey)
+                memcpy(it->k.ckey, g->ckey, 32);
+        if (g->akey)
+                memcpy(it->k.akey, g->akey, 32);
+        if (g->fix_iv) {
+                memcpy(it->iv, g->fix_iv, MAX_IV);
+                memcpy(it->aiv, g->fix_iv, MAX_IV);
+        }
 
         int aead = cs && cs->aead;
         int chained = cs && hs;
